@@ -386,7 +386,7 @@ def run(chk):
                 if nerr < len(incomplete):
                     chk.violation(f'undiagnosed-{c["k"]}', payload, f'{len(incomplete)} annotated item(s) with a container lacking its type arguments / an empty tuple struct or variant '
                                   f'({", ".join(l[0] for l in incomplete)}), but parser::parse reports only {nerr} error(s): not diagnosed')
-        bad = impl[0] in ('panic', 'abort')
+        bad = impl[0] in ('panic', 'abort', 'hang')
         if not bad:
             if model is None:
                 chk.count('front_model_unavailable (ast exhausted the harness stack)')
@@ -398,6 +398,9 @@ def run(chk):
                 corr.append(payload)
             continue
         chk.count('front_impl_' + impl[0])
+        if impl[0] == 'hang':
+            fail(f'front-{c["k"]}', payload, f'parser::parse does not return (no answer from the library for {impl[1]} s): it spins')
+            continue
         if impl[0] == 'abort':
             if c['deep'] >= 30:
                 fail(f'front-{c["k"]}', payload, 'the library aborts (stack exhausted)', 'C07-stack-overflow-deep-nesting')
